@@ -326,6 +326,8 @@ class Exec:
             return self.as_ptr(v.fields[0])
         if isinstance(v, Const):
             return Ptr(('H', 'static:' + v.text, ''), (), False, '')
+        if isinstance(v, (Bytes, Str)):
+            return Ptr(('H', 'literal:' + repr(v), ''), (), False, '')
         raise Unmodelled(f'deref of non-pointer {vrepr(v)}')
 
     def read_loc(self, p, frame, key, projs):
@@ -1171,7 +1173,9 @@ class Exec:
         base = f'{short}({",".join(vname(a) for a in call.args)})'
         if len(base) > 120:
             base = base[:100] + '#' + str(abs(hash(base)) % 10000)
-        eff = force_seq or any(_has_mut_ptr(a) for a in call.args)
+        ctor_like = not call.args and re.search(r'(::|^)(new|new_uninit|default|with_capacity|channel|builder)$', call.short) is not None and \
+            re.search(r'^(Box|Vec|String|BytesMut|HashMap|BTreeMap|JoinSet|Arc|Rc)\b|::(Box|Vec|BytesMut|JoinSet)::', call.short) is not None
+        eff = force_seq or ctor_like or any(_has_mut_ptr(a) for a in call.args)
         if eff:
             return f'{base}#{p.seq(base)}'
         return base
@@ -1222,6 +1226,11 @@ def derives_from(v, pred, depth=0, ex=None, p=None):
         fr = v.get_ov('from')
         if fr is not None and (pred(('call', fr[0])) or any(derives_from(x, pred, depth + 1, ex, p) for x in fr[1])):
             return True
+        if p is not None:
+            # contents written through a pointer obtained from this value (Box/Vec initialisation)
+            for key, val in list(p.mem.items()):
+                if key[0] == 'H' and isinstance(key[1], str) and key[1].startswith(v.name + '.') and val is not v and derives_from(val, pred, depth + 1, ex, p):
+                    return True
         return any(derives_from(val, pred, depth + 1, ex, p) for key, val in v.ov if key not in ('from', 'discr', 'head') and not isinstance(val, str))
     return False
 
